@@ -232,7 +232,7 @@ def runCase (c : Case) : String := Id.run do
     | .rx t tag _ =>
       tab := tab.map fun r => if r.tag == tag && r.rx.isNone then { r with rx := some t } else r
     | _ => pure ()
-  -- jitter sample of each delivered message: arrival − start − tx − latency ∈ [0, jitter]
+  -- jitter sample of each delivered message: arrival − start − tx − latency ∈ [0, jitter)  (= 0 without jitter)
   let mut msgs : Array Msg := #[]
   for r in tab do
     match r.start, r.rx with
@@ -240,7 +240,7 @@ def runCase (c : Case) : String := Id.run do
       if a < s + r.tx + lat then
         return bad 0 s!"kind=reject clause=delivery-too-early tag={r.tag} start={s} tx={r.tx} lat={lat} arrival={a}"
       let j := a - (s + r.tx + lat)
-      if j > jit then
+      if j != 0 && j ≥ jit then
         return bad 0 s!"kind=reject clause=delivery-too-late tag={r.tag} start={s} tx={r.tx} lat={lat} jit={jit} arrival={a}"
       msgs := msgs.push ⟨r.tag, r.len, r.tx, j⟩
     | _, _ => msgs := msgs.push ⟨r.tag, r.len, r.tx, 0⟩
